@@ -2,7 +2,7 @@ SPECIFICATION Spec
 CONSTANTS
   N = 3
   Refs = {"a", "b"}
-  MaxDepth = 5
+  MaxDepth = 6
   MaxPacks = 2
   WithCopies = TRUE
   WithIdx = FALSE
@@ -12,11 +12,8 @@ CONSTANTS
   BitmapChecksum = TRUE
   BitmapClosedPack = TRUE
   BitmapExcludeExact = TRUE
-  ProvidersAgree = TRUE
+  ProvidersAgree = FALSE
   DeleteDropsPacked = TRUE
 INVARIANT TypeOK
 INVARIANT Transparent
-INVARIANT Exact
-INVARIANT RefsTransparent
-INVARIANT StaleRejected
 CHECK_DEADLOCK FALSE
